@@ -659,6 +659,14 @@ func Request(t *rapid.T, tb model.TableSpec, cfg Cfg) model.ReqSpec {
 			if ct == "*/*" {
 				ct = pick(t, "ct2", MediaPool)
 			}
+			if chance(t, "ctextended", 8) {
+				// another media type whose name merely starts with (or ends in) a consumed one
+				if chance(t, "ctextfront", 25) {
+					ct = "x-" + ct
+				} else {
+					ct += pick(t, "ctext", []string{"5", "l", "-patch+json", "+x", ".v2"})
+				}
+			}
 			if chance(t, "ctparam", 20) {
 				ct += "; charset=utf-8"
 			}
